@@ -102,6 +102,11 @@ def obligations(tier):
     obs.append(Obligation('O3-pipeline-selection', o_pipeline_selection, code=['propka/run.py:single (whole pipeline)', 'propka/molecular_container.py:MolecularContainer.__init__', I + 'read_pdb', I + 'get_atom_lines_from_pdb'],
                           bounds='two-chain micro-structure, second chain identifier in {B, a, 1, blank, b}, selection first / second / both (15 concrete runs against the files with the other chain deleted)', kind='table-check',
                           claim_doc='same groups, pKa values, desolvation and determinants'))
+    from .c03 import mk_batch_inputs
+    obs.append(Obligation('O4-selection-with-several-inputs', mk_batch_inputs(['pair_ASP_ASP', 'nterm_ASP_LYS', 'pep8'], [['-c', 'A'], ['-c', 'B', '-c', 'A']]),
+                          code=['propka/run.py:main', I + 'read_molecule_file', I + 'read_pdb', I + 'get_atom_lines_from_pdb'],
+                          bounds='3 x 3 ordered pairs of inputs (one with chains A and B, two with chain A only) in one invocation x 2 selections that match every input (18 concrete invocations)', kind='table-check',
+                          claim_doc='the files written for the second input are those of the input run alone with the same selection (the selection is not used up by an earlier input)', max_paths=200))
     return obs
 
 
